@@ -63,6 +63,8 @@ theorem primary_part_layout {G : Type} (o : GroupOps G) (m : OvfMode) (pk : PubK
   cases h1 : verifyEquality o pk eq c un with
   | ok t =>
     rw [h1] at h; simp only [Outcome.bind_ok] at h
+    split at h
+    · simp at h
     cases h2 : verifyNeAll o m pk c eq.m ne with
     | ok rest => rw [h2] at h; simp only [Outcome.map_ok, Outcome.ok.injEq] at h; exact ⟨t, rest, rfl, rfl, h.symm⟩
     | err => rw [h2] at h; simp at h
